@@ -145,6 +145,12 @@ def fmtToks (ts : List Tok) : String := ",".intercalate (ts.map Tok.toStr)
 def fmtInst (i : Inst) : String :=
   s!"ok pre_i=[{fmtToks i.preI}] pre_r=[{fmtToks i.preR}] msgs=[{"|".intercalate (i.msgs.map fmtToks)}]"
 
+def showRes {α} (r : Res α) (f : α → String) : String :=
+  match r with
+  | .ok a => "ok " ++ f a
+  | .err e => s!"err {e.toStr}"
+  | .panic _ => "panic"
+
 def parseMods (s : String) : List Modifier :=
   if s == "-" then [] else
   (s.splitOn ",").map fun m =>
@@ -355,9 +361,28 @@ def step (st : St) (line : String) : St × String :=
     let name := unhex (arg 1)
     if !isUtf8 name then (st, "notutf8") else
     (match parse st.feats name with
-     | .ok p => (st, s!"ok pattern={p.pattern.name} mods={fmtMods p.mods} dh={p.dh.toStr} cipher={p.cipher.toStr} hash={p.hash.toStr} name={hex p.name}")
+     | .ok p => (st, s!"ok pattern={p.pattern.name} mods={fmtMods p.mods} dh={p.dh.toStr} cipher={p.cipher.toStr} hash={p.hash.toStr} name={hex p.name} psk={b01 (p.mods.any (fun m => match m with | .psk _ => true | _ => false))} fb={b01 (p.mods.contains .fallback)}")
      | .err e => (st, s!"err {e.toStr}")
      | .panic _ => (st, "panic"))
+  | "parse_part" =>
+    -- the individual FromStr impls (BaseChoice, DHChoice, CipherChoice, HashChoice, HandshakePattern,
+    -- HandshakeModifier, HandshakeModifierList, HandshakeChoice) called directly
+    let t := unhex (arg 2)
+    if !isUtf8 t then (st, "notutf8") else
+    (st, match arg 1 with
+      | "base" => showRes (parseBase t) (fun _ => "Noise")
+      | "dh" => showRes (parseDh st.feats t) DhChoice.toStr
+      | "cipher" => showRes (parseCipher st.feats t) CipherChoice.toStr
+      | "hash" => showRes (parseHash t) HashChoice.toStr
+      | "pattern" =>
+        (match parsePattern t with
+         | some p => s!"ok {p.name}"
+         | none => "err Pattern(UnsupportedHandshakeType)")
+      | "modifier" => showRes (parseModifierDirect t) Modifier.toStr
+      | "modlist" => showRes (parseModifiers t) fmtMods
+      | "handshake" => showRes (parseHandshake t) (fun pm =>
+          s!"{pm.1.name} {fmtMods pm.2} psk={b01 (pm.2.any (fun m => match m with | .psk _ => true | _ => false))} fb={b01 (pm.2.contains .fallback)}")
+      | _ => "ok badkind")
   | "tokens" =>
     (match Generated.allPatterns[nat 1]? with
      | none => (st, "nopattern")
@@ -388,7 +413,9 @@ def step (st : St) (line : String) : St × String :=
          let psks : List (Option Bytes) :=
            (List.range 10).map fun i => (pskPairs.find? (·.1 == i)).map (·.2)
          let cfg : BuildCfg :=
-           { pattern := p.pattern, mods := p.mods
+           { pattern := p.pattern
+             -- `mods=`: NoiseParams.handshake.modifiers.list replaced by a hand-built list after parsing
+             mods := (if parts.any (·.startsWith "mods=") then parseMods (kv parts "mods") else p.mods)
              -- `alias=x<hex>`: NoiseParams.name replaced by a free-form string after parsing
              name := (if (kv parts "alias").startsWith "x" then unhex ((kv parts "alias").drop 1).toString else p.name)
              initiator := arg 2 == "i"
@@ -494,7 +521,7 @@ def step (st : St) (line : String) : St × String :=
         | some (ts', ev) => (st.put (nat 1) (.sts S ts'), s!"ok ev={fmtEvents ev}")
         | none => (st, "nosession"))
      | _ => (st, "nosession"))
-  | "rekey_manual" =>
+  | "rekey_manual" | "rekey_manual_d" =>   -- `_d`: rekey_initiator_manually / rekey_responder_manually called directly
     (match st.get (nat 1) with
      | some (.ts S ts) => (st.put (nat 1) (.ts S (ts.rekeyManually (optBytes (arg 2)) (optBytes (arg 3)))), "ok")
      | some (.sts S ts) => (st.put (nat 1) (.sts S (ts.rekeyManually (optBytes (arg 2)) (optBytes (arg 3)))), "ok")
